@@ -66,6 +66,11 @@ def solve(formula, display=True, log=False, params={}):
                 solver.Add(left == const[j])
             else:
                 solver.Add(left <= const[j])
+        elif sense[j] == 1:
+            # a row without terms still has to hold: 0 == const or 0 <= const
+            solver.Constraint(float(const[j]), float(const[j]))
+        else:
+            solver.Constraint(-solver.infinity(), float(const[j]))
 
     if display:
         print('Being solved by OR-Tools...', flush=True)
